@@ -96,14 +96,30 @@ structure Wr where
   code : Nat
   opts : List (Nat × List UInt8)
   pay : List UInt8
+  rst : Bool := false     -- the handler set the type to Reset (`w.Message().SetType(message.Reset)`)
+
+def seqBytes (n start : Nat) : List UInt8 := (List.range n).map (fun i => UInt8.ofNat (start + i))
+
+/-- The unknown option numbers the harness handlers `ox` (elective: even numbers) and `oc` (critical: odd numbers) add. -/
+def electiveOpts : List (Nat × List UInt8) :=
+  [(252, seqBytes 8 0x10), (292, []), (292, seqBytes 20 0x40), (65000, seqBytes 300 0)]
+def criticalOpts : List (Nat × List UInt8) := [(2049, [0x61, 0x62]), (2049, []), (65001, seqBytes 14 0x70)]
+def mixedOpts : List (Nat × List UInt8) :=
+  [(252, seqBytes 8 0x10), (292, []), (292, seqBytes 20 0x40), (2049, [0x61, 0x62]), (2049, []), (65000, seqBytes 300 0),
+   (65001, seqBytes 14 0x70)]
 
 /-- What the harness handler writes for each behaviour (`none`: the writer is left unmodified). -/
 def handlerWr (beh : Beh) (n : Nat) : Option Wr :=
   match beh with
-  | .pb => some ⟨69, [(12, [])], digits n⟩
-  | .blk => some ⟨69, [(12, [])], digits n⟩
-  | .pbe => some ⟨132, [], []⟩
-  | .empty => some ⟨0, [], []⟩
+  | .pb => some { code := 69, opts := [(12, [])], pay := digits n }
+  | .blk => some { code := 69, opts := [(12, [])], pay := digits n }
+  | .pbe => some { code := 132, opts := [], pay := [] }
+  | .empty => some { code := 0, opts := [], pay := [] }
+  | .rst => some { code := 0, opts := [], pay := [], rst := true }
+  | .rstc => some { code := 132, opts := [], pay := [], rst := true }
+  | .ox => some { code := 69, opts := (12, []) :: electiveOpts, pay := digits n }
+  | .oc => some { code := 69, opts := (12, []) :: criticalOpts, pay := digits n }
+  | .oxc => some { code := 69, opts := (12, []) :: mixedOpts, pay := digits n }
   | .none => none
   | .sep => none
 
@@ -116,11 +132,12 @@ def dupType : RType → MType
 def respond (emptyCached : Bool) (typ : RType) (mid : Nat) (tok : List UInt8) (w : Option Wr) (msgID : Nat) : Nat × Option (Dgram × Bool) :=
   match w with
   | some w =>
-    if w.code = 0 then
-      -- isPongOrResetResponse: cached like any other reply since the F28 fix (`emptyCached` is read from the source)
+    if w.code = 0 || w.rst then
+      -- isPongOrResetResponse (code 0.00, or type Reset whatever the code): cached like any other reply since the F28 fix
+      -- (`emptyCached` is read from the source); a Reset to a NON request keeps its type
       match typ with
-      | .con => (msgID, some (⟨.ack, 0, mid, tok, w.opts, w.pay⟩, emptyCached))
-      | .non => (u32 (msgID + 1), some (⟨.non, 0, u16 (msgID + 1), tok, w.opts, w.pay⟩, emptyCached))
+      | .con => (msgID, some (⟨.ack, w.code, mid, tok, w.opts, w.pay⟩, emptyCached))
+      | .non => (u32 (msgID + 1), some (⟨if w.rst then .rst else .non, w.code, u16 (msgID + 1), tok, w.opts, w.pay⟩, emptyCached))
     else
       -- `SetMessageID(cc.GetMessageID())` runs before the confirmable case overrides type and MID
       match typ with
